@@ -475,6 +475,15 @@ func (c17) RunCase(c fw.Case, env *fw.Env) *fw.CaseResult {
 			pts := make([]model.Point, n)
 			for j := range pts {
 				pts[j] = model.Point{Id: r.g.NewId(), Doc: r.g.Doc()}
+				// unindexed sort playground: floats that are whole numbers next to floats that are not (a
+				// number must keep its kind and its order on the way through every shard server), and
+				// integers of several magnitudes
+				if rng.IntN(8) != 0 {
+					pts[j].Doc["price"] = []float64{10, 10.5, 3, 2.25, -1, 7.75, 1e6, 0, 0.5, -2.5, 100, 99.99}[rng.IntN(12)]
+				}
+				if rng.IntN(8) != 0 {
+					pts[j].Doc["rank"] = []int64{-300, -1, 0, 1, 7, 127, 128, 255, 256, 70000, 1 << 40}[rng.IntN(11)]
+				}
 			}
 			resp := cl.Do("POST", "/v2/collections/"+r.colId+"/points", pointsBody(pts))
 			res.Stat("inserts", 1)
@@ -563,9 +572,18 @@ func (c17) RunCase(c fw.Case, env *fw.Env) *fw.CaseResult {
 				q = models.Query{Property: "vec", VectorVamana: &models.SearchVectorVamanaOptions{Vector: r.g.Vector(3, models.DistanceEuclidean), Operator: models.OperatorNear, SearchSize: ss, Limit: 1 + rng.IntN(ss), Weight: weights[rng.IntN(len(weights))]}}
 			}
 			req := models.SearchRequest{Query: q, Limit: []int{100, 100, 10, 3, 50}[rng.IntN(5)], Select: []string{"*"}}
-			if rng.IntN(4) == 0 {
-				req.Select = []string{"n", "s"}
-				req.Sort = []models.SortOption{{Property: "n", Descending: rng.IntN(2) == 0}, {Property: "s"}}
+			if rng.IntN(3) == 0 {
+				req.Select = []string{"n", "s", "price", "rank"}
+				switch rng.IntN(4) {
+				case 0:
+					req.Sort = []models.SortOption{{Property: "n", Descending: rng.IntN(2) == 0}, {Property: "s"}}
+				case 1:
+					req.Sort = []models.SortOption{{Property: "price", Descending: rng.IntN(2) == 0}}
+				case 2:
+					req.Sort = []models.SortOption{{Property: "rank", Descending: rng.IntN(2) == 0}, {Property: "price"}}
+				default:
+					req.Sort = []models.SortOption{{Property: "price"}, {Property: "n", Descending: true}}
+				}
 			}
 			if rng.IntN(6) == 0 {
 				req.Offset = rng.IntN(7)
